@@ -246,6 +246,78 @@ pub fn client_cases(ctx: &Arc<SimCtx>, seq: &[WirePdu], counters: &mut Counters,
             counters.bump("fault_client_header_corruption");
         }
     }
+    // The wait between two steps: after a completed step the client waits for a
+    // Serial Notify (until its refresh timer fires). What arrives then is a
+    // Serial Notify that is cut short or whose header is damaged, followed by
+    // the end of the stream - there is no second answer, so a second step
+    // cannot complete; it must end (the refresh timer runs on the paused
+    // clock), not panic and not touch the target.
+    if reply.complete_at == Some(reply.bytes.len()) {
+        let session = u16::from_be_bytes([reply.bytes[reply.bytes.len().saturating_sub(if reply.init_v == 0 { 10 } else { 22 })], 0]);
+        let notify = WirePdu::SerialNotify { v: reply.bytes[0].min(2), session, serial: 7 }.encode();
+        let mut tails: Vec<(String, Vec<u8>)> = (0..notify.len()).map(|k| (format!("idle-truncated@{}", k), notify[..k].to_vec())).collect();
+        for (cname, c) in crate::c07::corruptions(&notify) {
+            let ann = u32::from_be_bytes([c[4], c[5], c[6], c[7]]);
+            if ann <= (1 << 24) {
+                tails.push((format!("idle-{}", cname), c));
+            }
+        }
+        for (name, tail) in tails {
+            let mut stream = reply.bytes.clone();
+            stream.extend_from_slice(&tail);
+            let short = ctx.chance(1, 2);
+            ctx.ev(71, stream.len() as u64, || format!("client case {} (two steps, short reads={})", name, short));
+            let o = guarded("client-step", || {
+                ctx.reset_polls();
+                let c2s = new_pipe("c->s", true, usize::MAX);
+                let s2c = new_pipe("s->c", true, usize::MAX);
+                {
+                    let mut p = s2c.lock().unwrap();
+                    p.short_reads = short;
+                    p.inject(&stream);
+                    p.close_writer();
+                }
+                let sock = SimSocket { rx: s2c.clone(), tx: c2s.clone(), ctx: ctx.clone(), updates: Default::default() };
+                let target = ModelTarget::default();
+                let mut client = Client::with_initial_version(reply.init_v, sock, target.clone(), reply.state.map(mk_state));
+                let res = rt.block_on(async {
+                    let first = tokio::time::timeout(Duration::from_secs(86_400), client.step()).await;
+                    match first {
+                        Ok(Ok(())) => Some(tokio::time::timeout(Duration::from_secs(400 * 86_400), client.step()).await.ok()),
+                        _ => None,
+                    }
+                });
+                let applied = target.0.lock().unwrap().applied.len();
+                Ok((res, applied))
+            })?;
+            out.evaluations += 1;
+            out.sub_sigs.push(fnv(&tail) ^ (tail.len() as u64) << 40 ^ 0x7e);
+            counters.bump("fault_client_idle_wait_damaged_notify");
+            match o {
+                (None, _) => counters.bump("probe_client_first_step_failed_on_intact_reply"),
+                (Some(None), _) => {
+                    return Err(Violation::new(
+                        "client-hang",
+                        "idle",
+                        format!("the second Client::step() did not return within 400 simulated days on [{}]; reply: {}", name, reply.what),
+                    ));
+                }
+                (Some(Some(Ok(()))), _) => {
+                    return Err(Violation::new(
+                        "client-accepted-truncated",
+                        "idle",
+                        format!("a second Client::step() completed although the stream held no second answer [{}]; reply: {}", name, reply.what),
+                    ));
+                }
+                (Some(Some(Err(_))), applied) => {
+                    if applied != 1 {
+                        return Err(Violation::new("client-apply-count", "idle", format!("after one completed and one failed step the target was handed {} updates [{}]", applied, name)));
+                    }
+                    counters.bump("client_second_steps_failed_as_they_must");
+                }
+            }
+        }
+    }
     // One PDU of the data response stamped with another SUPPORTED version
     // (same octets otherwise): a step must not complete on a response that
     // mixes protocol versions.
